@@ -53,7 +53,9 @@ func hash(s string) uint64 {
 	return h
 }
 
-func compressible(op byte) bool { return op != ref.OpStartup && op != ref.OpOptions && op != ref.OpReady }
+func compressible(op byte) bool {
+	return op != ref.OpStartup && op != ref.OpOptions && op != ref.OpReady
+}
 
 type countingReader struct {
 	r io.Reader
